@@ -150,8 +150,30 @@ def rule_stopping(repo, rep):
     conds = astutil.path_condition(main, b)
     allowed = {'grad_norm < self.tol', 'M_best is None',
                'self.tol > grad_norm', 'grad_norm <= self.tol'}
+    def _no_improving_step(cond_txt):
+      """another spelling of "no candidate improved on the best loss": the
+      condition, with its temporaries unfolded, is about the comparison of
+      candidate losses with the best loss so far (or about M_best)"""
+      try:
+        e = ast.parse(cond_txt, mode='eval').body
+      except SyntaxError:
+        return False
+      blk = main.body
+      top = b
+      pm2 = astutil.parents(main)
+      while top not in blk and top in pm2:
+        top = pm2[top]
+      un = astutil.unfold(e, blk, top) if top in blk else e
+      names = set(x.id for x in ast.walk(un) if isinstance(x, ast.Name))
+      return bool(names & {'M_best', 's_best'}) and any(
+          isinstance(x, ast.Compare) for x in ast.walk(un)) or \
+          'M_best' in names
     if conds and set(conds) <= allowed:
       rep.derived(R, 'lsml._BaseLSML._fit:exit(%s)' % ','.join(conds),
+                  site(f, b))
+    elif conds and all(c_ in allowed or _no_improving_step(c_)
+                       for c_ in conds):
+      rep.derived(R, 'lsml._BaseLSML._fit:exit(no improving step)',
                   site(f, b))
     else:
       rep.refuted(R, 'lsml._BaseLSML._fit:exit(%s)' % ','.join(conds),
